@@ -6,6 +6,8 @@ import Dmn.Lemmas.RefParserNeededExt
 import Dmn.Lemmas.RefParserDrops
 import Dmn.Lemmas.RefParserNeededDeepE
 import Dmn.Lemmas.RefParserLayout
+import Dmn.Lemmas.StringLit
+import Dmn.Lemmas.RefParserWide
 
 /-!
 # C06 — the parser builds the tree dictated by precedence and associativity
@@ -29,7 +31,13 @@ Obligations of this file (every `theorem` below is counted by `check`):
 * layout: `layout_gap_skipped`, `layout_irrelevant` (any number of comments in a gap),
   `layout_keyword_gap_skipped`, `layout_keyword_gap_irrelevant` (the gap between `function` / `list` /
   `range` / `context` and the bracket that makes it a keyword);
-* `string_escape_roundtrip` (all three spellings, every scalar value).
+* `string_escape_roundtrip` (all three spellings, every scalar value);
+* `string_literal_roundtrip`: the lexer model reads EVERY spelling of EVERY string — any sequence of raw
+  characters, simple escapes, `\uXXXX` / `\UXXXXXX` in either digit case, surrogate pairs, and a backslash before a
+  character that begins no escape (an ordinary character of the string) — as the string the grammar says it
+  denotes, wherever the literal stands; `string_quote_roundtrip`: `lex (quote s) = s` for every `s`;
+* `wide_sequences_flat`: a list literal, an argument list and an `in (…)` list of ANY length, written as the flat
+  comma-separated token list, parse to the flat tree (corollary of the round trip, with the token list written out).
 -/
 
 namespace Dmn.C06
@@ -476,5 +484,115 @@ theorem string_escape_roundtrip (c : Nat) (h : isScalar c = true) :
 
 -- 🙏 (U+1F64F), the code point the former mask 0xFF refused (finding F10, repaired)
 example : isScalar 0x1F64F = true ∧ 65536 ≤ 0x1F64F := by decide
+
+/-! ## String literals: every spelling of every string
+
+`Dmn.StringLit` reads the grammar (rules 35, 64, 65 of the DMN specification): the body of a
+literal is a sequence of pieces — a raw character other than `"`, `\` and vertical space; one of
+the six simple escapes; `\uXXXX`, `\UXXXXXX` (hexadecimal digits in either case, digit by digit);
+a surrogate pair; or a backslash before a character that begins none of these (then the backslash
+and the character are two ordinary characters of the string).  `Dmn.Lexer.consumeString` is the
+model of `Lexer::consume_string` that the token correspondence of C05 / C10 ties to the code. -/
+
+open Dmn.StringLit in
+/-- The lexer model reads the literal spelled by the pieces `ps` — wherever it stands in the
+input, whatever follows — as the string the pieces denote, and stops just after the closing
+quote. -/
+theorem string_literal_roundtrip (pre rest : List Nat) (ps : List StringLit.Piece) (h : ps.all StringLit.Piece.ok = true) :
+    Dmn.Lexer.consumeString (pre ++ literal ps ++ rest) pre.length =
+      .ok (⟨.string, .string (denote ps)⟩, pre.length + (literal ps).length) :=
+  consumeString_literal pre rest ps h
+
+-- `"\bfoo\b"` is the eight characters `\bfoo\b` (the witness of seeded change C06-17); `"é\U01F64F🙏\\"`
+open Dmn.StringLit in
+example : [StringLit.Piece.bs 98, .raw 102, .raw 111, .raw 111, .bs 98].all StringLit.Piece.ok = true ∧
+    denote [StringLit.Piece.bs 98, .raw 102, .raw 111, .raw 111, .bs 98] = [92, 98, 102, 111, 111, 92, 98] ∧
+    literal [StringLit.Piece.bs 98, .raw 102, .raw 111, .raw 111, .bs 98] = [34, 92, 98, 102, 111, 111, 92, 98, 34] ∧
+    [StringLit.Piece.u4 0xE9 0b0100, .u6 0x1F64F 0b100000, .sur 0x1F64F 0xFF, .simple 92].all StringLit.Piece.ok = true ∧
+    denote [StringLit.Piece.u4 0xE9 0b0100, .u6 0x1F64F 0b100000, .sur 0x1F64F 0xFF, .simple 92] = [0xE9, 0x1F64F, 0x1F64F, 92] := by
+  decide
+
+open Dmn.StringLit in
+/-- `lex (quote s) = s`: the canonical spelling of any string (`"` and `\` escaped, vertical space
+written as `\n`, `\r`, `\u000B`, `\u000C`) is read back as the string — no hypothesis on `s`. -/
+theorem string_quote_roundtrip (pre rest s : List Nat) :
+    Dmn.Lexer.consumeString (pre ++ literal (quote s) ++ rest) pre.length =
+      .ok (⟨.string, .string s⟩, pre.length + (literal (quote s)).length) := by
+  have h := consumeString_literal pre rest (quote s) (quote_ok s)
+  rwa [denote_quote] at h
+
+/-! ## Width: sequences of any length are flat -/
+
+/-- A list literal `[a, b, …]`, an argument list `f(a, b, …)` and `e in (a, b, …)` of ANY
+number of items — the flat, comma-separated token list — parse to the flat tree with exactly
+those items in that order (no bound on the length: the proof is the round trip, by induction). -/
+theorem wide_sequences_flat (items : List Atom) (f : Nat) (a b : Atom) :
+    parse (.lbrack :: commaToks items ++ [.rbrack]) = some (.list (atomArgs items)) ∧
+    parse (.name f :: .lparen :: commaToks items ++ [.rparen]) =
+      some (.call (.atom (.name f)) (atomArgs items)) ∧
+    parse (.name f :: .kin :: .lparen :: commaToks (a :: b :: items) ++ [.rparen]) =
+      some (.inList (.atom (.name f)) (.atom a) (.atom b) (atomArgs items)) := by
+  refine ⟨?_, ?_, ?_⟩
+  · have h := parse_print_minimal_partial (.list (atomArgs items))
+    simpa [print, pr, prArgs_atoms] using h
+  · have h := parse_print_minimal_partial (.call (.atom (.name f)) (atomArgs items))
+    simpa [print, pr, prArgs_atoms, needs, wrapped, isAtom, par, absorbs, atomTok] using h
+  · have h := parse_print_minimal_partial (.inList (.atom (.name f)) (.atom a) (.atom b) (atomArgs items))
+    simpa [print, pr, prArgsTail_atoms, needs, wrapped, isAtom, par, absorbs, atomTok, commaToks_cons, fbOf] using h
+
+open Dmn.StringLit in
+/-- The same on the level of tokens: `read_next_token` with the cursor on the opening quote
+returns the string token carrying the denoted string and puts the cursor just after the closing
+quote; no lexer flag is touched. -/
+theorem string_token_roundtrip (l : Dmn.Lexer.Lx) (pre rest : List Nat) (ps : List StringLit.Piece)
+    (hinp : l.input = pre ++ literal ps ++ rest) (hpos : l.pos = pre.length) (h : ps.all StringLit.Piece.ok = true) :
+    Dmn.Lexer.readNextToken l =
+      .ok (⟨.string, .string (denote ps)⟩, { l with pos := pre.length + (literal ps).length }) :=
+  readNextToken_literal l pre rest ps hinp hpos h
+
+/-- The two models of `consume_unicode` are one: the decision of the lexer model
+(`Dmn.Lexer.consumeUnicode`: a value in one of the four direct ranges denotes itself, a high
+surrogate followed by a low surrogate denotes the supplementary code point, anything else is an
+error) is what the byte-level model (`Dmn.Escape`: the UTF-8 packing written in `lexer.rs:798-851`
+followed by a UTF-8 decoder in the role of `String::from_utf8`) computes — for EVERY literal
+value, not only for the spellings of scalar values; in particular `unicode_conversion_failed`
+(lexer.rs:858) is unreachable, as the lexer model assumes. -/
+theorem unicode_byte_model_is_lexer_decision (v low : Nat) :
+    Dmn.Escape.consumeUnicode v none =
+      (if v ≤ 0xD7FF || (0xE000 ≤ v && v ≤ 0xFFFF) || (0x10000 ≤ v && v ≤ 0x10FFFF) then some v else none) ∧
+    ((0xD800 ≤ v ∧ v ≤ 0xDBFF) → Dmn.Escape.consumeUnicode v (some low) =
+      (if 0xDC00 ≤ low && low ≤ 0xDFFF then some (0x10000 + (v - 0xD800) * 0x400 + (low - 0xDC00)) else none)) := by
+  constructor
+  · by_cases hs : isScalar v = true
+    · rw [consumeUnicode_scalar v hs]
+      have : (decide (v ≤ 0xD7FF) || (decide (0xE000 ≤ v) && decide (v ≤ 0xFFFF)) ||
+          (decide (0x10000 ≤ v) && decide (v ≤ 0x10FFFF))) = true := by
+        simp [isScalar] at hs; simp; omega
+      rw [if_pos this]
+    · have hv : (0xD800 ≤ v ∧ v ≤ 0xDFFF) ∨ 0x10FFFF < v := by
+        simp [isScalar] at hs; omega
+      have hn : ¬ ((decide (v ≤ 0xD7FF) || (decide (0xE000 ≤ v) && decide (v ≤ 0xFFFF)) ||
+          (decide (0x10000 ≤ v) && decide (v ≤ 0x10FFFF))) = true) := by
+        simp; omega
+      rw [if_neg hn]
+      unfold Dmn.Escape.consumeUnicode
+      by_cases hh : (decide (0xD800 ≤ v) && decide (v ≤ 0xDBFF)) = true
+      · rw [if_pos hh]
+      · rw [if_neg hh]
+        have hh' : ¬ (0xD800 ≤ v ∧ v ≤ 0xDBFF) := by simpa using hh
+        have : packOne v = none := by
+          unfold packOne
+          rw [if_neg (by omega), if_neg (by omega), if_neg (by simp; omega), if_neg (by simp; omega)]
+        rw [this]
+  · intro hv
+    unfold Dmn.Escape.consumeUnicode
+    have hh : (decide (0xD800 ≤ v) && decide (v ≤ 0xDBFF)) = true := by simp; omega
+    rw [if_pos hh]
+    by_cases hl : (decide (0xDC00 ≤ low) && decide (low ≤ 0xDFFF)) = true
+    · simp only [hl, if_true]
+      have hl' : 0xDC00 ≤ low ∧ low ≤ 0xDFFF := by simpa using hl
+      rw [packSur_eq]
+      exact decode_four _ (by omega) (by omega)
+    · simp [hl]
 
 end Dmn.C06
